@@ -585,6 +585,13 @@ theorem byte_order_spellings (native : Order) (a : OrderArg) :
   subst h
   cases a <;> simp [resolveOrder, OrderArg.order]
 
+/-- **C18.31b** which spellings are prefixes with STANDARD sizes (`l` / `L` are 4 bytes under them, the
+machine's `long` otherwise — the driver picks the width of those two formats by it): `"="`, `"<"`, `">"`,
+`"!"`; every spelling that names an order is one of them. -/
+theorem order_std_prefix (a : OrderArg) :
+    (a.std = true ↔ (a = .eq ∨ a = .lt ∨ a = .gt ∨ a = .bang)) ∧ (a.order.isSome = true → a.std = true) := by
+  cases a <;> simp [OrderArg.std, OrderArg.order]
+
 example : resolveOrder .little OrderArg.eq.order = .little ∧ resolveOrder .big OrderArg.at.order = .big
     ∧ resolveOrder .little OrderArg.bang.order = .big := by decide
 
